@@ -20,6 +20,8 @@ enum Op {
     AdvanceBy(usize),
     Seek(usize),
     CursorFrom(usize),
+    /// seek(current model index + d): every short forward distance from every reachable state
+    SeekRel(usize),
 }
 
 impl Op {
@@ -29,6 +31,7 @@ impl Op {
             Op::AdvanceBy(k) => json!(["advance_by", k]),
             Op::Seek(i) => json!(["seek", i]),
             Op::CursorFrom(i) => json!(["cursor_from", i]),
+            Op::SeekRel(d) => json!(["seek_rel", d]),
         }
     }
     fn from_json(v: &Value) -> Op {
@@ -39,6 +42,7 @@ impl Op {
             "advance_by" => Op::AdvanceBy(n),
             "seek" => Op::Seek(n),
             "cursor_from" => Op::CursorFrom(n),
+            "seek_rel" => Op::SeekRel(n),
             o => panic!("unknown op {o}"),
         }
     }
@@ -69,11 +73,12 @@ fn model_step(n: usize, m: usize, op: Op) -> usize {
             }
         }
         Op::Seek(i) | Op::CursorFrom(i) => i.min(n),
+        Op::SeekRel(d) => m.saturating_add(d).min(n),
     }
 }
 
 /// Apply `op` to the real cursor; return (new cursor, return value).
-fn real_step<'a>(ef: &'a EliasFano, c: &EliasFanoCursor<'a>, op: Op) -> (EliasFanoCursor<'a>, Option<u32>) {
+fn real_step<'a>(ef: &'a EliasFano, c: &EliasFanoCursor<'a>, m: usize, op: Op) -> (EliasFanoCursor<'a>, Option<u32>) {
     match op {
         Op::AdvanceOne => {
             let mut c2 = c.clone();
@@ -88,6 +93,11 @@ fn real_step<'a>(ef: &'a EliasFano, c: &EliasFanoCursor<'a>, op: Op) -> (EliasFa
         Op::Seek(i) => {
             let mut c2 = c.clone();
             let r = c2.seek(i);
+            (c2, r)
+        }
+        Op::SeekRel(d) => {
+            let mut c2 = c.clone();
+            let r = c2.seek(m.saturating_add(d));
             (c2, r)
         }
         Op::CursorFrom(i) => {
@@ -188,7 +198,7 @@ fn index_alphabet(n: usize) -> Vec<usize> {
 }
 
 /// S1: BFS over real cursor states to a fixpoint.
-fn history_bfs(vals: &[u32], rep: &mut Report) {
+fn history_bfs(vals: &[u32], rel: bool, rep: &mut Report) {
     let n = vals.len();
     let ef = EliasFano::build(vals);
     let idxs = index_alphabet(n);
@@ -197,6 +207,9 @@ fn history_bfs(vals: &[u32], rep: &mut Report) {
     ops.push(Op::AdvanceBy(usize::MAX));
     ops.extend(idxs.iter().map(|&i| Op::Seek(i)));
     ops.extend(idxs.iter().map(|&i| Op::CursorFrom(i)));
+    if rel {
+        ops.extend((1..=66).map(Op::SeekRel));
+    }
     // node table: key -> id; parents for path reconstruction
     let mut ids: HashMap<String, usize> = HashMap::new();
     let mut parent: Vec<(usize, Option<Op>)> = Vec::new();
@@ -224,12 +237,12 @@ fn history_bfs(vals: &[u32], rep: &mut Report) {
         for &op in &ops {
             rep.trans(1);
             let m2 = model_step(n, m, op);
-            let (c2, ret) = real_step(&ef, &c, op);
+            let (c2, ret) = real_step(&ef, &c, m, op);
             if let Some(w) = observe_ok(vals, m2, &c2, ret) {
                 let name = match op {
                     Op::AdvanceOne => "advance_one",
                     Op::AdvanceBy(_) => "advance_by",
-                    Op::Seek(_) => "seek",
+                    Op::Seek(_) | Op::SeekRel(_) => "seek",
                     Op::CursorFrom(_) => "cursor_from",
                 };
                 let ops_path = path_of(&parent, id, op);
@@ -258,12 +271,12 @@ fn replay_history(vals: &[u32], ops: &[Op], rep: &mut Report) {
     for (step, &op) in ops.iter().enumerate() {
         rep.trans(1);
         let m2 = model_step(n, m, op);
-        let (c2, ret) = real_step(&ef, &c, op);
+        let (c2, ret) = real_step(&ef, &c, m, op);
         if let Some(w) = observe_ok(vals, m2, &c2, ret) {
             let name = match op {
                 Op::AdvanceOne => "advance_one",
                 Op::AdvanceBy(_) => "advance_by",
-                Op::Seek(_) => "seek",
+                Op::Seek(_) | Op::SeekRel(_) => "seek",
                 Op::CursorFrom(_) => "cursor_from",
             };
             rep.fail(&format!("history:{name}:{w}"), step, || json!({"kind":"history","values":vals_json(vals),"failed_at_step":step}));
@@ -282,6 +295,14 @@ fn sequences(ctx: &Ctx) -> Vec<(String, Vec<u32>)> {
         out.push(("small".into(), s));
     }
     let lens: &[usize] = if ctx.quick() { &[255, 256, 257, 513, 700] } else { &[255, 256, 257, 511, 512, 513, 700, 1000, 1025] };
+    // irregular gaps (deterministic, no RNG): the number of elements per 64-bit high-bits word varies from
+    // word to word, so "the target is the first element of a later word" occurs at many different distances
+    for &n in &[70usize, 130, 300, 400] {
+        for (m, a) in [(7u32, 3u32), (37, 1), (11, 64), (5, 1000)] {
+            let mut acc = 0u32;
+            out.push(("irregular".into(), (0..n as u32).map(|i| { acc = acc.saturating_add((i * i + i / 3) % m * a); acc }).collect()));
+        }
+    }
     for &n in lens {
         for s in [0u32, 1, 2, 63, 64, 65, 1000, 4_000_000] {
             out.push(("stride".into(), (0..n as u32).map(|i| i.saturating_mul(s)).collect()));
@@ -311,7 +332,7 @@ fn explore(ctx: &Ctx, rep: &mut Report) {
         guard(rep, &format!("PANIC:static/{fam}"), vals.len(), case, |rep| static_checks(vals, rep));
         rep.space(&format!("history/{fam}"));
         let case = || json!({"kind":"history-bfs","values":vals});
-        guard(rep, &format!("PANIC:history/{fam}"), vals.len(), case, |rep| history_bfs(vals, rep));
+        guard(rep, &format!("PANIC:history/{fam}"), vals.len(), case, |rep| history_bfs(vals, fam == "irregular" || fam == "small" || !ctx.quick(), rep));
         if i % 997 == 3 {
             rep.sample(|| json!({"family":fam,"values_prefix":&vals[..vals.len().min(8)],"len":vals.len(),
                 "ops":"BFS to fixpoint over advance_one, advance_by(k), seek(i), cursor_from(i)"}));
@@ -321,7 +342,7 @@ fn explore(ctx: &Ctx, rep: &mut Report) {
     for k in rep.subspaces.keys().cloned().collect::<Vec<_>>() {
         rep.mark_exhaustive(&k, "every sequence of the family; static: every get/predecessor argument of the stated set; history: BFS to fixpoint (every op applied in every reachable concrete cursor state)");
     }
-    rep.extra.insert("op_alphabet".into(), json!({"advance_by_k": KS, "seek/cursor_from": "0..=len+1 (len<=8) or boundary indices ±{0,1,2} of 0/64/128/256/512/len plus usize::MAX"}));
+    rep.extra.insert("op_alphabet".into(), json!({"advance_by_k": KS, "seek_rel": "seek(index + d) for every d in 1..=66 from every reachable state (families small and irregular; every family in the thorough tier)", "seek/cursor_from": "0..=len+1 (len<=8) or boundary indices ±{0,1,2} of 0/64/128/256/512/len plus usize::MAX"}));
 }
 
 fn replay(case: &Value, rep: &mut Report) {
@@ -331,7 +352,7 @@ fn replay(case: &Value, rep: &mut Report) {
             let ops: Vec<Op> = case["ops"].as_array().map(|a| a.iter().map(Op::from_json).collect()).unwrap_or_default();
             replay_history(&vals, &ops, rep);
         }
-        "history-bfs" => history_bfs(&vals, rep),
+        "history-bfs" => history_bfs(&vals, true, rep),
         _ => static_checks(&vals, rep),
     }
 }
